@@ -441,6 +441,39 @@ def rule_condfold(chk, prog, tier):
     r.exhaustive = False
 
 
+# ------------------------------------------------------------------ C04.h constants survive printing
+
+def rule_const_text(chk, prog, tier):
+    r = chk.rule('C04.h', 'a folded constant reaches the IL text without loss: integer operands are printed as the full 64-bit value, floating operands with enough digits that the text reads back as the same float/double (instruction operands: emitvalue)', floor=25,
+                 oracle='IEEE 754: 17 significant decimal digits round-trip a binary64, 9 a binary32')
+    from props import c07
+    fn = prog.require_func('emitvalue', 'qbe.c')
+    f32 = lambda x: struct.unpack('<f', struct.pack('<f', x))[0]
+    cases = [('VALUE_INTCONST', v) for v in (0, 1, 255, 2 ** 31 - 1, 2 ** 31, 2 ** 32 - 1, 2 ** 32, 2 ** 63 - 1, 2 ** 63, 2 ** 64 - 1)]
+    cases += [('VALUE_DBLCONST', v) for v in (0.5, 0.1 + 0.2, 4.35 * 100, 1.7976931348623157e308, 1.0 / 3, 2.2250738585072014e-308, 5e-324, 123456789.12345678, -9007199254740993.0)]
+    cases += [('VALUE_FLTCONST', f32(v)) for v in (0.5, 0.1, 16777216.0 / 3, 3.4028234663852886e38, 1.17549435e-38, 1e-45, -2.5)]
+    M = c07.out_models()
+    for kind, v in cases:
+        def runner(it):
+            o = Obj('value', 'heap'); o.f[('kind',)] = ev(prog, kind)
+            o.f[('u', 'i')] = v if kind == 'VALUE_INTCONST' else UNINIT
+            o.f[('u', 'f')] = v if kind != 'VALUE_INTCONST' else UNINIT
+            it.call(fn, [Ptr(o, ())])
+            return ''.join(e_[1] for e_ in it.events if e_[0] == 'text')
+        runs = explore(prog, runner, M, max_runs=4, on_unsupported='keep')
+        if len(runs) != 1 or runs[0].outcome != 'return':
+            raise AnalysisBroken('emitvalue(%s %r): %s %s' % (kind, v, runs[0].outcome if runs else '?', runs[0].detail if runs else ''))
+        txt = runs[0].value
+        try:
+            if kind == 'VALUE_INTCONST': ok = int(txt) == v
+            elif kind == 'VALUE_DBLCONST': ok = txt.startswith('d_') and float(txt[2:]) == v
+            else: ok = txt.startswith('s_') and f32(float(txt[2:])) == v
+        except (ValueError, OverflowError):
+            ok = False
+        r.instance(ok, 'const-text:%s:%r' % (kind[6:], v), 'qbe.c:%s' % fn.get('line'), 'operand %r is printed as `%s`, which reads back as a different value' % (v, txt))
+    r.exhaustive = False
+
+
 def run(chk, tier):
     prog = facts.programs()['cproc-qbe']
     chk.guard('C04.a', lambda: rule_fold_table(chk, prog, tier))
@@ -450,3 +483,6 @@ def run(chk, tier):
     chk.guard('C04.e', lambda: rule_logical(chk, prog, tier))
     chk.guard('C04.f', lambda: rule_consumers(chk, prog, tier))
     chk.guard('C04.g', lambda: rule_condfold(chk, prog, tier))
+    chk.guard('C04.h', lambda: rule_const_text(chk, prog, tier))
+    from props import c07
+    chk.guard('C07.b', lambda: c07.rule_emitdata(chk, prog, tier))
